@@ -353,6 +353,43 @@ pub fn run(ctx: &Ctx) -> Outcome {
                     });
                 }
             }
+            // the unchecked block-level API at and across the last counter value: by design it wraps, it must not panic
+            for bp in [lim - 1, lim] {
+                for nblocks in [1usize, 2, par + 1] {
+                    rep.case(|| {
+                        let mut c = rec::core(cfg, d, &key, &iv);
+                        let _ = c.set_block_pos(bp);
+                        let mut buf = data[..nblocks * bs].to_vec();
+                        c.write_blocks(&mut buf);
+                        let _ = c.apply_blocks(Kind::InPlace, &[], &mut buf);
+                        c.write_block(&mut buf[..bs]);
+                        let _ = c.get_block_pos();
+                        let _ = c.remaining_blocks();
+                        let _ = c.iv_state();
+                        Ok(())
+                    });
+                }
+            }
+            // byte seeks into and just past the last block (positions a caller can form), all representable types
+            if let Some(end) = lim.checked_mul(bs as u128) {
+                for pos in [end - 1, end, end + 1, end + bs as u128 - 1] {
+                    for t in SEEK_TYS {
+                        if pos > t.max() {
+                            continue;
+                        }
+                        rep.case(|| {
+                            let mut s = rec::stream(cfg, d, &key, &iv);
+                            let _ = s.seek(t, pos);
+                            for t2 in SEEK_TYS {
+                                let _ = s.pos(t2);
+                            }
+                            let mut buf = data[..bs + 1].to_vec();
+                            let _ = s.apply(Kind::InPlace, &[], &mut buf);
+                            Ok(())
+                        });
+                    }
+                }
+            }
             // byte seeks of every integer type to the ends of its range
             for t in SEEK_TYS {
                 for pos in [0u128, 1, (bs - 1) as u128, bs as u128, t.max() / 2, t.max() - 1, t.max()] {
